@@ -63,11 +63,7 @@ Theorem C01_reads_verified_partial :
     (forall out, snd r = ROk out -> pieces_of H T f out)
     /\ s_verify (fst r) = true /\ s_tainted (fst r) = false
     /\ (exists os', fst r = exec H (init T D) (os ++ os')).
-Proof.
-  intros H T D os f off len fs s Hv Ht r.
-  destruct (read_at_verified H T s f off len fs (reach_clean H T D os Hv Ht)) as [[_ [A [_ [_ [B _]]]]] [[os' C] E]].
-  repeat split; auto. exists os'. fold r. rewrite C. unfold s. symmetry. apply exec_app.
-Qed.
+Proof. exact reads_verified_partial. Qed.
 Print Assumptions C01_reads_verified_partial.
 
 (* The hypothesis "not tainted" holds for every history in which no skip-verify handle was ever requested
@@ -77,13 +73,7 @@ Theorem C01_reads_verified_no_skip :
   forall H T D os f off len fs out, let s := exec H (init T D) os in
     forallb (fun o => negb (is_skip o)) os = true ->
     snd (read_at H s f off len fs) = ROk out -> pieces_of H T f out.
-Proof.
-  intros H T D os f off len fs out s Hn Hr.
-  destruct (no_skip_untainted H T D os Hn) as [Ht Hh]. fold s in Ht, Hh.
-  destruct (s_handle s) eqn:Eh.
-  - destruct (read_at_verified H T s f off len fs (reach_clean H T D os (Hh eq_refl) Ht)) as [_ [_ E]]. auto.
-  - unfold read_at in Hr. rewrite Eh in Hr. discriminate Hr.
-Qed.
+Proof. exact reads_verified_no_skip. Qed.
 Print Assumptions C01_reads_verified_no_skip.
 
 (* The refuted class, on the faithful model (and reproduced on the implementation by the harness corpus, known
